@@ -292,7 +292,7 @@ mod wire {
             }
             1 => {
                 let reverse = dfa::DfaValidator::deserialize(modifiers, true, reader)?;
-                let full = dfa::DfaValidator::deserialize(modifiers, true, reader)?;
+                let full = dfa::DfaValidator::deserialize(modifiers, false, reader)?;
                 Ok(Validator::Greedy { reverse, full })
             }
             v => Err(io::Error::new(
